@@ -26,8 +26,15 @@ pub fn judge(input: &[u8], rec: &mut Recorder) {
             "raw-views",
             io(Builder::new(b[12], b[13]).write_payload(h.address_bytes()).and_then(|x| x.write_payload(h.tlv_bytes())).and_then(|x| x.build())),
         ));
-        // 2. decoded items, when the section is well-formed
-        if h.tlvs().all(|t| t.is_ok()) {
+        // 2. decoded items, when the section is well-formed - as judged by the reference walk over
+        //    the wire bytes, not by the implementation's own verdict
+        let wellformed = {
+            let size = spec::v2::fam_size(fam).unwrap_or(0);
+            fam == 0 || 16 + size > b.len() || tlv_ref(&b[16 + size..]).1 == TlvEnd::Clean
+        };
+        if wellformed && !h.tlvs().all(|t| t.is_ok()) {
+            outs.push(("decoded-items(write_payloads)", Err("the TLV iterator reports an error item on a well-formed section, so the header cannot be rebuilt from its decoded items".to_string())));
+        } else if wellformed {
             outs.push((
                 "decoded-items(write_payloads)",
                 io(Builder::new(b[12], b[13])
@@ -130,7 +137,7 @@ impl Monitor for C13 {
         "cases = valid v2 headers (all 24 control pairs, distinct non-palindromic address bytes, TLV sections empty / well-formed / truncated / overrunning / random, payloads up to 65535 bytes incl. exactly 65535, with and without trailing bytes); each is parsed and rebuilt through the builder from (a) control bytes + address_bytes() + tlv_bytes(), (b) the decoded TLV items (write_payloads, write_tlv) when the section is well-formed, (c) the TLV iterator as a payload, fresh and after having been advanced / exhausted, (d) the decoded address value (with_addresses; write_payload) when a family is specified; every rebuild must equal the original header bytes; non-trivial = header with a payload; distinct = distinct headers"
     }
     fn streams(&self, tier: Tier) -> Vec<StreamSpec> {
-        vec![stream("c13-valid", tier.n(40, 250_000, 25_000_000)), stream("c13-pairs", tier.n(24, 48_000, 2_400_000))]
+        vec![stream("c13-valid", tier.n(40, 800_000, 25_000_000)), stream("c13-pairs", tier.n(24, 48_000, 2_400_000))]
     }
     fn run_case(&self, stream: &str, idx: u64, seed: u64, rec: &mut Recorder) {
         let mut rng = Rng::for_case(seed, stream_id(stream), idx);
